@@ -54,6 +54,79 @@ PROPS = {
         "trusted": ["as C01"],
         "assumptions": ["'well-formed' DISCOVER: IP destination broadcast, no server identifier, not the server's MAC, not asking for the server's own address"],
     },
+    "C04": {
+        "level": "REQUEST verdicts as a decision table over the handler's verdict: acknowledged exactly when the classification (RFC 2131 table 4) "
+                 "designates an in-network address the sender currently holds, the probe is free and the update succeeds, and then with that address "
+                 "(ack_iff); silent and — over the reference table — changing nothing for another server / outside the network / unicast elsewhere / "
+                 "own hardware address (silent_and_unchanged); NAK when not bound (nak_when_not_bound); the panic of handleRequest unreachable "
+                 "(desired_ne_none) — Lean theorems for every database state and oracle, tied to frames by handle_eq_handleV; exhaustive "
+                 "correspondence of the full request matrix (5 760 cells, each against a fresh real server with follow-up probes).",
+        "props": ["C04"],
+        "streams": [{"test": "TestReqMatrix", "names": ["reqmatrix"], "timeout": 300}, {"test": "TestSrvSeq", "names": ["srvseq"], "timeout": 300}],
+        "rule": "EXHAUSTIVE matrix: sender binding {none, pending offer, lease, static, expired} x identity {hw, client id, short id, server MAC} x "
+                "IP destination {broadcast, server, other} x server identifier {none, this, other, 3 bytes} x requested address {none, bound, "
+                "another host's, outside, server's, 3 bytes} x source {0, bound, another's, outside} = 5 760 cells, each followed by a DISCOVER of the "
+                "sender and a renewal of the other host; plus the random scripts of C01; non-trivial = answered",
+        "trusted": ["as C01"],
+        "assumptions": ["'names a different server' = a four-byte server identifier other than the server's address (a wrong-length option decodes to absent)",
+                        "requests for the server's own address are dropped by the own-address guard (a listed mechanism), hence outside the NAK clause",
+                        "classify_table assumes the server's address is not 255.255.255.255 (found by the prover: with it a broadcast REQUEST classifies as renewing)"],
+    },
+    "C06": {
+        "level": "Every OFFER/ACK/NAK frame read back with the stack's decoders is a BOOTREPLY echoing xid, flags and hardware address, server identifier = "
+                 "own address, ports 67->68, IP source = own address, destination by the broadcast flag, link-layer destination likewise, checksums "
+                 "verifying (lease_reply_wire, nak_reply_wire, composed from the C12/C13 round trips); at most one reply per handler "
+                 "(at_most_one_reply, done_is_final) — Lean theorems; byte-exact comparison of every frame in all server streams and an independent "
+                 "decoder as monitor.",
+        "props": ["C06"],
+        "streams": [{"test": "TestSrvSeq", "names": ["srvseq"], "timeout": 300}, {"test": "TestReqMatrix", "names": ["reqmatrix"], "timeout": 300}],
+        "rule": "every reply frame of the C01 scripts and of the request matrix (xid, all 16 flag bits in 5% of the messages, hardware-address lengths "
+                "0..16, pads, trailing bytes); non-trivial = answered",
+        "trusted": ["as C01"],
+        "assumptions": ["wire theorems for hardware addresses of at most 16 bytes and representable configurations (CfgWf)"],
+    },
+    "C07": {
+        "level": "dhcpOptions is exactly lease, netmask, then router/DNS/NTP/domain/hostname with per-client replacement of exactly the settings an entry "
+                 "specifies (options_spec), decoding to the configured values (options_decoded), identical in OFFER and ACK (offer_ack_agree), and "
+                 "the advertised whole seconds are within one second of what the ACK's update reserves (advertised_is_reserved) — Lean theorems; "
+                 "correspondence over every subset of global x per-client settings x list lengths, checked by the monitor's own reading of the config.",
+        "props": ["C07"],
+        "streams": [{"test": "TestCfgOptions", "names": ["cfgopts"], "timeout": 300}, {"test": "TestCfgNew", "names": ["cfgnew"], "timeout": 300}],
+        "rule": "16 global subsets x 16 per-client subsets x list lengths {1,2,8} (thorough: also 63) x leases {1 min, 90.5 s, 49 d}, for the client with the "
+                "entry and a stranger, DISCOVER and DISCOVER+REQUEST; plus the valid configurations of the C18 stream (MAC spellings, 63 DNS servers, "
+                "255-byte domain); non-trivial = distinct configuration / answered",
+        "trusted": ["as C01; configuration strings parsed by the standard library"],
+    },
+    "C08": {
+        "level": "arpVerify is free iff all pings timed out or the first answer is the client's own (arpVerify_free_iff); an answer is the sender hardware "
+                 "address of the first 28-byte-truncated frame whose SENDER address is the probed one (only_sender_ip_counts, probe_times_out); a "
+                 "REQUEST whose probe met a foreign answer is never acknowledged and is NAKed (conflict_never_acked, conflict_naked); an offered "
+                 "address was probed free in the very search (offered_was_probed_free) — Lean theorems; the real arpping.Ping against injected frame "
+                 "lists, responders on the pools of the server scripts, and restarts with leaseholders still answering.",
+        "props": ["C08"],
+        "streams": [{"test": "TestArp", "names": ["arp"], "timeout": 300}, {"test": "TestSrvSeq", "names": ["srvseq"], "timeout": 300}],
+        "rule": "Ping against 0-4 injected frames (valid answers, wrong sender address, requests, short, padded to 46 bytes, random); restart scripts: 1-4 "
+                "hosts lease, the server is rebuilt empty, the holders answer ARP, 1-3 newcomers DISCOVER (half of them asking for an address in use); "
+                "plus responders (foreign / the client's own MAC / wrong sender address, delays 1-150 ms) on half of the C01 scripts",
+        "trusted": ["as C01"],
+        "partial": "Timing clause partial: the 3 x 200 ms bound is observed under the virtual clock; answers later than one ping window coincide with a later "
+                   "window's deadline and are covered by the model only.",
+    },
+    "C10": {
+        "level": "The receive chain never indexes out of range for any byte string (rx_never_panics, with the C12/C13 decoder theorems), is total (rx_total), a "
+                 "dropped frame leaves the whole system state untouched (junk_is_noop, unhandled_is_noop) and any interleaving of junk equals the run "
+                 "without it (junk_interleaving); the client side is C14's catch_never_panics / ignored_have_no_effect — Lean theorems; junk frames "
+                 "through the real Run loop inside server scripts, mutated and random bytes through the real decoders and the real catchReply, with "
+                 "recover() turning a panic into a reported case.",
+        "props": ["C10", "C14"],
+        "streams": [{"test": "TestSrvSeq", "names": ["srvseq"], "timeout": 300}, {"test": "TestWire", "names": ["wire"], "timeout": 300}, {"test": "TestDhcp", "names": ["dhcp"], "timeout": 300},
+                    {"test": "TestCliCatch", "names": ["clicatch"], "timeout": 300}],
+        "rule": "structure-aware mutations of valid frames (length fields, IHL incl. short packets with large IHL, truncation anywhere, option bytes, hlen "
+                "0/1/6/16/17/255, op, ports, protocol, trailing bytes, bit flips) and random bytes; 8% of the messages of every server script are junk "
+                "frames; unknown message types and 0-16-byte hardware addresses as ordinary messages",
+        "trusted": ["as C01"],
+        "assumptions": ["'parses as' is the decoders' notion: the server looks neither at the IP protocol number nor at the UDP ports (DESIGN 12.3)"],
+    },
     "C11": {
         "level": "Refinement: for every sequence of Clients / IPDB operations with non-decreasing clocks the results of the Go data structure "
                  "(map with two keys per record, pointer identity, lazy per-key expiry) equal those of a reference table with at most one live "
@@ -129,6 +202,22 @@ PROPS = {
                 "chroot binary; non-trivial = non-empty value / file written",
         "trusted": ["regexp and unicode/utf8 (re-implemented in the model as character classes + rune segmentation, compared on every case)",
                     "net.IP.String / IPMask.String / Sprintf(%d)", "os/exec (drops duplicate environment keys)", "chroot(2) as root in the sandbox"],
+    },
+    "C18": {
+        "level": "server.New starts exactly on valid configurations (starts_iff_valid: every field parses, lease >= 1 min, options representable, dynamic "
+                 "range and statics inside the network, distinct addresses and hardware addresses, own address inside and unreserved), independent of "
+                 "map iteration order (order_independent), with every global and per-client value in effect (effective_global, effective_client) and "
+                 "identically for the concrete store (start_refines) — Lean theorems over all raw configurations; correspondence: the real server.New on "
+                 "valid configurations and on 29 kinds of injected faults (alone and in pairs), the started servers then answering a DISCOVER per client.",
+        "props": ["C18"],
+        "streams": [{"test": "TestCfgNew", "names": ["cfgnew"], "timeout": 300}, {"test": "TestCfgOptions", "names": ["cfgopts"], "timeout": 300}],
+        "rule": "random valid configurations (prefix, range position, 0-2 client entries, three MAC spellings, 63 DNS servers / 255-byte domain boundary) with "
+                "0, 1 or 2 faults from {network, lease, lease<1 min, router, dns, ntp, empty string inside a list, >63 dns/ntp, >255-byte domain, lease > "
+                "2^32-1 s, range format / address / reversed / outside, own address outside / absent, per-client MAC / ip / router / dns / ntp / >63 dns / "
+                ">255-byte hostname / static outside / network address / duplicate address / duplicate MAC in another spelling / static = own address}; "
+                "non-trivial = a fault was injected",
+        "trusted": ["net.ParseCIDR / ParseIP / ParseMAC, time.ParseDuration and the text-proto parser: the model receives per field empty / unparsable / "
+                    "the parsed value as the harness obtains them with the same functions"],
     },
     "C19": {
         "level": "For each of the three socket disciplines the model executes every schedule of outcomes (creation failing, reads/writes failing or "
